@@ -739,6 +739,25 @@ def check_normalization(case, domain, pts, P, out, stats):
         out.append(viol("C18", "normalization", "outside-[-1,1]", "", worst=m))
 
 
+def _low_acceptance(case):
+    """Reference estimate: does some rejection loop of this case accept < 5 % at some parameter row?"""
+    try:
+        rng = np.random.default_rng(H(case["rng"], "acc") % (2 ** 32))
+        pspace = [tuple(x) for x in (case.get("pspace") or [])]
+        rows = case.get("prows") or [[]]
+        dom = case["dom"]
+        if dom["k"] == "prod":
+            return False
+        for row in rows[:5]:
+            prow = {v: [row[i]] for i, (v, _) in enumerate(pspace) if v in G.free_vars(dom)}
+            base = dom["d"] if dom["k"] == "bnd" else dom
+            if G.acceptance_floor(base, prow, rng) < 0.05:
+                return True
+    except Exception:
+        return False
+    return False
+
+
 def _has_dependent_product(node):
     if node["k"] == "prod" and (G.free_vars(node["a"]) & {v for v, _ in G.space(node["b"])}):
         return True
@@ -764,6 +783,8 @@ def run_case(case, props=("C01", "C02", "C05", "C06", "C10", "C18"), monitors=Tr
                 # probability-zero) acceptance count of 1 makes the library ask for n**2
                 # proposals at every nesting level; it would terminate, it is not a liveness defect
                 stats["growth_under_faults"] = 1
+            elif _low_acceptance(case):
+                stats["slow_low_acceptance"] = 1    # a nearly empty piece at these parameter values
             else:
                 out.append(viol("C01", "termination", "draw-budget-exceeded", innermost_site(ex.__traceback__),
                                 msg=str(ex)[:160]))
